@@ -277,6 +277,7 @@ fn detector_call(e: &Expr) -> Option<String> {
 pub fn gen_patterns(repo: &str) -> String {
     let mut o = String::new();
     let mut residue: Vec<String> = vec![];
+    let mut frame_residue: Vec<String> = vec![];
     o.push_str("-- GENERATED by harness/src/bin/extract from the three analyzer mod.rs and the three *_report.rs. Do not edit.\nnamespace Solstat.Gen\n\ninductive Severity | High | Medium | Low\nderiving DecidableEq, Repr, Inhabited\n\n");
     for c in &CATEGORIES {
         let px = c.lean_prefix;
@@ -440,7 +441,7 @@ pub fn gen_patterns(repo: &str) -> String {
             let mut expect_b = expect_a.clone();
             expect_b[1] = "let source_unit = solang_parser :: parse (& file_contents , file_number) . unwrap () . 0 ;".to_string();
             if frame != expect_a && frame != expect_b {
-                residue.push(format!("{}: frame differs from the modelled per-file entry point", c.analyze_fn));
+                frame_residue.push(format!("{}: frame differs from the modelled per-file entry point", c.analyze_fn));
             }
         } else {
             residue.push(format!("{} not found", c.analyze_fn));
@@ -497,8 +498,14 @@ pub fn gen_patterns(repo: &str) -> String {
         }
     }
     o.push_str(&format!(
-        "def patternsResidue : List String := [{}]\n\nend Solstat.Gen\n",
+        "def patternsResidue : List String := [{}]\n\n",
         residue.iter().map(|r| lean_str(r)).collect::<Vec<_>>().join(",\n  ")
+    ));
+    // the per-file entry points (parse, run the detector, convert every location to its line) are modelled by
+    // `analyzeLines`; anything else in their bodies (a cache, a filter, another conversion) is listed here
+    o.push_str(&format!(
+        "def entryFrameResidue : List String := [{}]\n\nend Solstat.Gen\n",
+        frame_residue.iter().map(|r| lean_str(r)).collect::<Vec<_>>().join(",\n  ")
     ));
     o
 }
